@@ -22,6 +22,8 @@ type Envelope struct {
 	M    *MCase `json:"matrix_case,omitempty"`
 	O    *OCase `json:"optimizer_case,omitempty"`
 	S    *SCase `json:"stall_case,omitempty"`
+	C    *CCase `json:"constraint_case,omitempty"`
+	F    *FCase `json:"function_argument_case,omitempty"`
 	L    *LCase `json:"loud_case,omitempty"`
 	A    *ACase `json:"algorithm_case,omitempty"`
 	B    string `json:"optimizer_bad_argument,omitempty"`
@@ -36,12 +38,18 @@ func run(c *vf.Ctx) {
 	if part == "" || part == "stall" {
 		termStalls(c, &idx)
 	}
+	if part == "" || part == "con" {
+		termConstraints(c, &idx)
+	}
 	if part == "" || part == "matrix" {
 		termMatrices(c, &idx)
 	}
 	if part == "" || part == "loud" {
 		loudAll(c, &idx)
 		loudAlgorithms(c, &idx)
+	}
+	if part == "" || part == "loud" || part == "fn" {
+		loudFunctionArgs(c, &idx)
 	}
 }
 
@@ -55,9 +63,12 @@ func main() {
 			"block compositions diag(B1..Bk) of total size 4 (thorough also 5 and 6 with at most 3 blocks) for every ordered choice of blocks, not all 1x1, from the catalogue (1x1: 0,1,-1,2; 2x2: both rotations, swap, J2(0), J2(1) upper and lower, ones, nilpotent rank-one, [1 -1;1 1]; 3x3: both 3-cycles, the transpositions, C3·diag(1,1,-1), C3·diag(2,1,1), J3(0), J3(1) upper and lower, ones; thorough 4x4: both 4-cycles, signed 4-cycle, two swaps, J4(0), J4(1), ones) × coupling of all off-diagonal blocks (none; all ones or a single entry next to the diagonal, above or below the diagonal), also negated (thorough: ±2^±40 and, for size 4, ±D·A·D); " +
 			"optimizers × start point × objective poison (NaN/±Inf value or value+gradient, error) from call k=1..5; non-trivial = input on which the routine can iterate (not 1x1/diagonal) resp. the poisoned answer was actually consumed. " +
 			"stalling configurations: newton.RunRoot/RunCrit/RunMin (× Hessian modification), bfgs, rprop, gradientDescent × objective (quadratic with exactly attained minimum, quartic with singular Hessian at the minimum, constant; roots of x-1, x²-1, x²-2, 0, circle∩line) × start points (7; thorough 11) × constraint (none, x0<=b, x0>=b for b in {0,1,2}, 4 boxes; thorough more) × epsilon (default, 1e-30, 0 with MaxIterations 50); non-trivial = feasible start and at least one iteration. " +
-			"loud failure: every operation × storage (dense/sparse) × 9 element types × every shape tuple from dims {0,1,2,3} / index from {-1,0,dim-1,dim,dim+1} / permutation array; non-trivial = the call is non-conforming (must fail) or conforming with a non-empty result (value compared with the model)",
+			"adversarial user constraints: lineSearch.Run (phi(a)=(a-c)^2, c in {1,2,0.5,3,1/16}, Alpha1 1 and 4), bfgs, rprop, newton.RunRoot/RunCrit/RunMin (x Hessian modification) x objective (sum (x_i-1)^2; (x_0-2)^2+10 sum x_i^2; roots x_i^2-1; (x_0-2, x_i)) x 5 start points (thorough 10) x constraint callback (false everywhere; true for the first k-1 calls and false from call k=2..5 on; true only at the start point resp. step length 0; true iff x_0<=lo or x_0>=hi for 5 (thorough 10) gaps (lo,hi), i.e. a feasible set that is not convex along the search line); non-trivial = the callback answered 'inadmissible' at least once. " +
+			"loud failure: every operation × storage (dense/sparse) × 9 element types × every shape tuple from dims {0,1,2,3} / index from {-1,0,dim-1,dim,dim+1} / permutation array; non-trivial = the call is non-conforming (must fail) or conforming with a non-empty result (value compared with the model); " +
+			"operations with a function argument: Hessian(f, x) and Jacobian(f, x) of every dense and sparse matrix type x 9 element types x plain and sentinel-framed view receivers x every receiver shape from dims {0..4}^2 x argument dimension 0..3 (Jacobian: x result dimension 0..3) x f (quadratic form / linear map with small integer coefficients, constant, linear form), receivers filled with a sentinel pattern; dense: a non-conforming call must panic or return an error and leave the receiver bit-identical; sparse (documented to reallocate the receiver): the returned matrix and the receiver must have the shape and values of the model; a conforming call must return the model value",
 		Assume: []string{
-			"step budget 2e5·(n+1)^3 loop ticks per call (two-stage: a 100x smaller first stage, exceedance is re-run under the full budget); 1e5 objective evaluations",
+			"step budget 2e5·(n+1)^3 loop ticks per call (two-stage: a 100x smaller first stage, exceedance is re-run under the full budget); 1e5 objective evaluations; 1e5 evaluations of the user constraint callback (first stage 2000)",
+			"user constraint callbacks may be history dependent (an environment like the objective); the verdict is termination only — which point is returned under an inconsistent callback is not judged",
 			"termination verdicts accept any of: result, error, panic",
 			"Epsilon{0} means 'no tolerance stop' (the library's own demo programs use it with MaxIterations{N}): enumerated with a finite MaxIterations only; not for gradientDescent, which has no MaxIterations option",
 			"loud failure: a panic or an error return both count as loud; after a rejected call all in-range reads of the receiver must still succeed",
@@ -79,6 +90,10 @@ func main() {
 				st.opt(e.O, 0)
 			case e.S != nil:
 				st.stall(e.S, 0)
+			case e.C != nil:
+				st.con(e.C, 0)
+			case e.F != nil:
+				runFn(c, e.F, 0)
 			case e.L != nil:
 				runLoud(c, e.L, 0)
 			case e.A != nil:
